@@ -181,6 +181,28 @@ Definition C13_cli_from_queried_ok (lia : Z) (lh : bytes) (ria : Z) (rh : bytes)
   | None => true
   end.
 
+(* ---- which key: the requests the listener and the client make to the DRKey
+        daemon, as the daemon sees them ----
+   "The host-to-host key" of a datagram of the time service is the key of protocol
+   number 123 (the low 16 bits of the SPI) between the server (fast side: the
+   request's destination ISD-AS and host) and the client (slow side: its source
+   ISD-AS and host), valid at the time of the packet. *)
+Record kreq := mkKreq { kq_hh : bool; kq_proto : Z; kq_fast_ia : Z; kq_slow_ia : Z;
+                        kq_fast_host : bytes; kq_slow_host : bytes; kq_time_ok : bool }.
+
+Definition ts_proto : Z := Z.land spi_client 65535.
+
+(* the listener asks for the host-AS key of (server AS and host, client AS) and derives the rest *)
+Definition srv_keyreq_ok (q : rx) (r : kreq) : bool :=
+  let h := rx_hdr q in
+  negb (kq_hh r) && (kq_proto r =? ts_proto) && (kq_fast_ia r =? h_dst_ia h) && (kq_slow_ia r =? h_src_ia h) &&
+  bytes_eqb (kq_fast_host r) (h_dst_raw h) && kq_time_ok r.
+
+(* the client asks for the host-host key between the queried server and itself *)
+Definition cli_keyreq_ok (lia : Z) (lh : bytes) (ria : Z) (rh : bytes) (r : kreq) : bool :=
+  kq_hh r && (kq_proto r =? ts_proto) && (kq_fast_ia r =? ria) && (kq_slow_ia r =? lia) &&
+  same_ip (kq_fast_host r) rh && same_ip (kq_slow_host r) lh && kq_time_ok r.
+
 (* ---- fail-closed authentication (NOT a clause of C13 as stated; the pinned
         code does not have this property, see Props/C13.v) ----
    A client configured to authenticate computes an offset only from a response
@@ -204,6 +226,24 @@ Definition C13_cli_strict_ok (auth_wanted key_ok epoch_ok : bool) (resps : list 
         end
     end
   else true.
+
+(* C13's first sentence read literally also covers SCMP: an echo or traceroute
+   REQUEST that carries the time service's authenticator (client SPI,
+   algorithm) whose MAC does not verify is not answered.  The pinned code does
+   not look at the authenticator of SCMP requests (KNOWN_FINDINGS; theorem
+   C13_scmp_bad_mac_served_refuted). *)
+Definition scmp_request (q : rx) : bool :=
+  match rx_l4 q with
+  | Scmp t _ _ => (t =? SCMP_ECHO_REQUEST) || (t =? SCMP_TRACEROUTE_REQUEST)
+  | _ => false
+  end.
+
+Definition C13_srv_scmpauth_ok (auth_enabled : bool) (q : rx) (qmac : bytes) (obs : list sobs) : bool :=
+  match carries_auth spi_client q with
+  | Some a => if auth_enabled && scmp_request q && negb (bytes_eqb qmac (opt_mac a))
+              then match obs with [] => true | _ => false end else true
+  | None => true
+  end.
 
 (* A listener does not authenticate with a key whose epoch is over: the reply
    to a request for the service does not carry the server's authenticator. *)
